@@ -702,6 +702,26 @@ class _ExprInliner(ast.NodeTransformer):
         self.generic_visit(n)
         # a generator helper consumed at once: hoist it as the eager list it yields
         consumer = (isinstance(n.func, ast.Name) and n.func.id in self._CONSUMERS) or (isinstance(n.func, ast.Attribute) and n.func.attr in ("join", "extend"))
+        # `next(<genexp over gen(..)>, default)` / any / all / list ... over a comprehension whose source is the generator helper:
+        # the helper's items are read eagerly too. This evaluates MORE than the lazy original (the candidates after the first
+        # hit); for the rules - which ask what is built from what, not how much of it - that is the safe direction.
+        lazy_consumer = isinstance(n.func, ast.Name) and n.func.id in (self._CONSUMERS | {"next", "any", "all", "min", "max"})
+        if lazy_consumer and n.args and isinstance(n.args[0], (ast.GeneratorExp, ast.ListComp)) and n.args[0].generators and isinstance(n.args[0].generators[0].iter, ast.Call) and self.conditional <= 0 and self.stmt is not None and isinstance(self.stmt, (ast.Expr, ast.Assign, ast.AnnAssign, ast.AugAssign, ast.Return)):
+            src = n.args[0].generators[0].iter
+            g = _helper_of(self.fi, src)
+            if g is not None and is_generator(g.node) and inlinable(g.node, allow_generator=True) and self.sel(g, src, self.stmt):
+                tmp = f"_{g.name.strip('_')}_items"
+                while tmp in self.names:
+                    tmp += "_"
+                self.names.add(tmp)
+                asg = ast.Assign(targets=[ast.Name(id=tmp, ctx=ast.Store())], value=src)
+                ast.copy_location(asg, self.stmt)
+                ast.fix_missing_locations(asg)
+                asg._eager_ok = True  # type: ignore[attr-defined]
+                self.hoisted.append(asg)
+                self.changed = True
+                n.args[0].generators[0].iter = ast.copy_location(ast.Name(id=tmp, ctx=ast.Load()), src)
+                return n
         if consumer and n.args and isinstance(n.args[0], ast.Call) and not self.conditional and self.stmt is not None and isinstance(self.stmt, (ast.Expr, ast.Assign, ast.AnnAssign, ast.AugAssign, ast.Return)):
             g = _helper_of(self.fi, n.args[0])
             if g is not None and is_generator(g.node) and inlinable(g.node, allow_generator=True) and self.sel(g, n.args[0], self.stmt):
@@ -930,6 +950,18 @@ def inline_helpers(fi: FuncInfo, select: Callable[[FuncInfo, ast.Call, ast.stmt]
             for idx, st in enumerate(stmts):
                 if skip_next:
                     skip_next = False
+                    continue
+                # `x = h(a) if c else d` with a selected helper in a branch: the same thing as an if/else statement
+                if isinstance(st, ast.Assign) and isinstance(st.value, ast.IfExp) and any(isinstance(b, ast.Call) and (lambda hh: hh is not None and sel(hh, b, st))(_helper_of(view, b)) for b in (st.value.body, st.value.orelse)):
+                    ife = st.value
+                    a1 = ast.Assign(targets=clone(st.targets), value=ife.body)
+                    a2 = ast.Assign(targets=clone(st.targets), value=ife.orelse)
+                    new_if = ast.If(test=ife.test, body=[ast.copy_location(a1, st)], orelse=[ast.copy_location(a2, st)])
+                    ast.fix_missing_locations(ast.copy_location(new_if, st))
+                    new_if.body = walk(new_if.body)
+                    new_if.orelse = walk(new_if.orelse)
+                    out.append(new_if)
+                    changed = True
                     continue
                 # `if [C and] any(<cond on x> for x in gen(..)): <leave>` over a generator helper: read as the helper's own loop with
                 # `x = <yielded>; if <cond>: <leave>` where it yields (any() stops at the first hit and the branch leaves anyway)
